@@ -54,11 +54,8 @@ type pieceReaderCloseWatcher struct {
 }
 
 func (w *pieceReaderCloseWatcher) Close() error {
-	err := w.PieceReader.Close()
-	if err != nil {
-		w.w.touchLastRead()
-	}
-	return err
+	w.w.touchLastRead()
+	return w.PieceReader.Close()
 }
 
 func (w *torrentAccessWatcher) GetPieceReader(piece int) (storage.PieceReader, error) {
